@@ -48,6 +48,9 @@ type Ctx struct {
 	Env        []string `json:"env,omitempty"` // additions: KEY=VALUE
 	GoMaxProcs int      `json:"gomaxprocs,omitempty"`
 	Plan       *Plan    `json:"plan,omitempty"` // only with Binary=="sim"; paths may contain {W}
+	// Stdout: "" = a pipe that is read to the end; "full" = /dev/full (every write
+	// fails with ENOSPC); "readonly" = a descriptor opened for reading (EBADF)
+	Stdout string `json:"stdout,omitempty"`
 	// HomeRel puts HOME at {W}/<HomeRel> (created, with go telemetry off) instead of the shared scratch HOME.
 	HomeRel string `json:"home_rel,omitempty"`
 }
@@ -180,6 +183,18 @@ func (e *Env) Run(root string, c Ctx) *Observation {
 	var so, se bytes.Buffer
 	cmd.Stdout = &so
 	cmd.Stderr = &se
+	switch c.Stdout {
+	case "full":
+		if f, err := os.OpenFile("/dev/full", os.O_WRONLY, 0); err == nil {
+			defer f.Close()
+			cmd.Stdout = f
+		}
+	case "readonly":
+		if f, err := os.Open("/dev/null"); err == nil {
+			defer f.Close()
+			cmd.Stdout = f
+		}
+	}
 	cmd.WaitDelay = 5 * time.Second
 	cmd.SysProcAttr = &syscall.SysProcAttr{Setpgid: true}
 	cmd.Cancel = func() error {
